@@ -1,8 +1,183 @@
-import ScriggoV.Model.Lexer
-/-! # C04 — building never crashes, hangs or leaks (placeholder; theorems follow) -/
-namespace ScriggoV.Props.C04
-open ScriggoV ScriggoV.Lexer
+import ScriggoV.Lemmas.Lexer
+/-! # C04 — building never crashes, hangs or leaks, whatever the source bytes
 
-theorem placeholder : True := trivial
+The part of the property that lives in the lexer (the producer goroutine whose panic kills the
+host process and whose termination decides whether `Stop()` returns): for every byte string,
+every format, every classification of runes,
+
+* `scan_no_fault`     no checked index or slice of the model faults (`Fault.index`, `Fault.slice`);
+* `scan_terminates`   the fuel of every loop suffices (`Fault.other` is never returned): each
+                      loop has a strictly decreasing measure, so the goroutine reaches
+                      `close(tokens)`;
+* `spans_partition`   the emitted tokens lie one after the other inside the source: in bounds,
+                      non-overlapping, in increasing order (empty tokens sit on a boundary).
+
+All three hold at full strength for the whole model (template layer and `lexCode` with all its
+literal lexers). The model is the *repaired* lexer: the unrepaired one faults, see
+`unfixed_*` below. Parser, type checker, emitter and disassembler are not modelled: the
+end-to-end harness (go/props/c04) is their only coverage. -/
+namespace ScriggoV.Props.C04
+open ScriggoV ScriggoV.Lexer ScriggoV.Gen.LexTables
+
+/-- `scan` returns tokens (and possibly a syntax error), never a fault, for every input -/
+theorem scanWith_total (E : Env) (ctx : Nat) : ∃ toks e, scanWith E ctx = .ok (toks, e) := by
+  obtain ⟨toks, e, h, _⟩ := scanWith_ok (codeSpec E) ctx
+  exact ⟨toks, e, h⟩
+
+/-- index and slice safety of the template lexer, all formats -/
+theorem scan_no_fault (U : Unicode) (format : Nat) (noParseShow : Bool) (src : Bytes) (f : Fault) :
+    scanTemplate U format noParseShow src ≠ .error f := by
+  unfold scanTemplate
+  obtain ⟨toks, e, h⟩ := scanWith_total { text := src, tmpl := true, noParseShow, U } format
+  rw [h]; intro hh; cases hh
+
+/-- index and slice safety of the program lexer -/
+theorem scanProgram_no_fault (U : Unicode) (src : Bytes) (f : Fault) : scanProgram U src ≠ .error f := by
+  unfold scanProgram
+  obtain ⟨toks, e, h⟩ := scanWith_total { text := src, tmpl := false, noParseShow := false, U } ContextText
+  rw [h]; intro hh; cases hh
+
+/-- termination: no loop of the model runs out of fuel (`Fault.other`); the fuel of each loop
+is the bound of its strictly decreasing measure (`mu` for the main loop, the remaining length
+for the others), see Lemmas/Lexer -/
+theorem scan_terminates (U : Unicode) (format : Nat) (noParseShow : Bool) (src : Bytes) :
+    scanTemplate U format noParseShow src ≠ .error .other ∧ scanProgram U src ≠ .error .other :=
+  ⟨scan_no_fault U format noParseShow src .other, scanProgram_no_fault U src .other⟩
+
+/-! ## spans -/
+
+/-- tokens in emission order: every non-empty token covers `start..end` inside the source,
+every empty token sits at a position of the source (or one byte before it: the inserted
+semicolon), and non-empty tokens come in increasing order without overlap -/
+def SpansOK (len : Nat) (toks : List Tok) : Prop :=
+  (∀ t ∈ toks, 0 < t.txtLen → 0 ≤ t.start ∧ t.stop = t.start + t.txtLen - 1 ∧ t.stop < len) ∧
+  (∀ t ∈ toks, t.txtLen = 0 → t.stop = t.start ∧ -1 ≤ t.start ∧ t.start ≤ len) ∧
+  toks.Pairwise (fun a b => 0 < a.txtLen → 0 < b.txtLen → a.stop < b.start)
+
+theorem tokensIn_bounds {ts : List Tok} {lo hi : Nat} (h : TokensIn ts lo hi) :
+    (∀ t ∈ ts, 0 < t.txtLen → (lo : Int) ≤ t.start ∧ t.stop = t.start + t.txtLen - 1 ∧ t.stop < hi) ∧
+    (∀ t ∈ ts, t.txtLen = 0 → t.stop = t.start ∧ (lo : Int) - 1 ≤ t.start ∧ t.start ≤ hi) := by
+  induction ts generalizing hi with
+  | nil => exact ⟨by simp, by simp⟩
+  | cons t ts ih =>
+    obtain ⟨b, h1, h2, h3⟩ := h
+    have hle := h1.le
+    obtain ⟨i1, i2⟩ := ih h1
+    constructor
+    · intro x hx hpos
+      rcases List.mem_cons.mp hx with rfl | hm
+      · obtain ⟨s1, s2⟩ := h3.1 hpos
+        refine ⟨by rw [s1]; exact_mod_cast hle, by rw [s2, s1], ?_⟩
+        rw [s2]; have : (b : Int) + x.txtLen ≤ hi := by exact_mod_cast h2
+        omega
+      · obtain ⟨a1, a2, a3⟩ := i1 x hm hpos
+        exact ⟨a1, a2, by have : (b : Int) ≤ hi := by exact_mod_cast (by omega : b ≤ hi)
+                          omega⟩
+    · intro x hx hz
+      rcases List.mem_cons.mp hx with rfl | hm
+      · obtain ⟨s1, s2⟩ := h3.2 hz
+        have hb1 : (lo : Int) ≤ b := by exact_mod_cast hle
+        have hb2 : (b : Int) ≤ hi := by exact_mod_cast (by omega : b ≤ hi)
+        refine ⟨s1, ?_, ?_⟩ <;> rcases s2 with s2 | s2 <;> rw [s2] <;> omega
+      · obtain ⟨a1, a2, a3⟩ := i2 x hm hz
+        exact ⟨a1, a2, by have : (b : Int) ≤ hi := by exact_mod_cast (by omega : b ≤ hi)
+                          omega⟩
+
+theorem tokensIn_pairwise {ts : List Tok} {lo hi : Nat} (h : TokensIn ts lo hi) :
+    ts.Pairwise (fun newer older => 0 < older.txtLen → 0 < newer.txtLen → older.stop < newer.start) := by
+  induction ts generalizing hi with
+  | nil => exact List.Pairwise.nil
+  | cons t ts ih =>
+    obtain ⟨b, h1, h2, h3⟩ := h
+    refine List.Pairwise.cons ?_ (ih h1)
+    intro older hm ho hn
+    obtain ⟨_, _, a3⟩ := (tokensIn_bounds h1).1 older hm ho
+    obtain ⟨s1, _⟩ := h3.1 hn
+    rw [s1]; exact a3
+
+/-- `spans_partition`: the token spans of any scan are in bounds, ordered and non-overlapping -/
+theorem spans_of_tokensIn {toks : List Tok} {len : Nat} (h : TokensIn toks.reverse 0 len) : SpansOK len toks := by
+  obtain ⟨b1, b2⟩ := tokensIn_bounds h
+  refine ⟨?_, ?_, ?_⟩
+  · intro t ht hp
+    obtain ⟨a1, a2, a3⟩ := b1 t (List.mem_reverse.mpr ht) hp
+    exact ⟨by simpa using a1, a2, a3⟩
+  · intro t ht hz
+    obtain ⟨a1, a2, a3⟩ := b2 t (List.mem_reverse.mpr ht) hz
+    exact ⟨a1, by simpa using a2, a3⟩
+  · have := tokensIn_pairwise h
+    rw [List.pairwise_reverse] at this
+    exact this
+
+theorem spans_partition (U : Unicode) (format : Nat) (noParseShow : Bool) (src : Bytes) :
+    ∃ toks e, scanTemplate U format noParseShow src = .ok (toks, e) ∧ SpansOK src.length toks := by
+  unfold scanTemplate
+  obtain ⟨toks, e, h, hin⟩ := scanWith_ok (codeSpec { text := src, tmpl := true, noParseShow, U }) format
+  exact ⟨toks, e, h, spans_of_tokensIn hin⟩
+
+theorem spans_partition_program (U : Unicode) (src : Bytes) :
+    ∃ toks e, scanProgram U src = .ok (toks, e) ∧ SpansOK src.length toks := by
+  unfold scanProgram
+  obtain ⟨toks, e, h, hin⟩ := scanWith_ok (codeSpec { text := src, tmpl := false, noParseShow := false, U }) ContextText
+  exact ⟨toks, e, h, spans_of_tokensIn hin⟩
+
+/-! ## the unrepaired code faults: the theorems above are about the repaired lexer
+
+`lexComment` tested `i < len(l.src)-p` before reading `l.src[p+i+1]` (row 1 of DESIGN §8,
+fixes/C04-lexcomment-bounds.md). With that guard the model's first loop faults on `{##`. -/
+
+/-- `commentLoop` with the guard of the unrepaired code -/
+def commentLoopUnfixed (E : Env) (st : St) : Nat → Nat → Nat → Except Fault (Option Nat)
+  | 0, _, _ => .error .other
+  | fuel + 1, nested, p => do
+    let s ← srcFrom E st p
+    match indexByte s 0x23 with
+    | none => pure none
+    | some i =>
+      let isOpen ← (if i > 0 then (srcAt E st (p + i - 1)).map (· == 0x7b) else pure false : Except Fault Bool)
+      if isOpen then commentLoopUnfixed E st fuel (nested + 1) (p + i + 1)
+      else
+        let isClose ← (if i < srcLen E st - p then (srcAt E st (p + i + 1)).map (· == 0x7d) else pure false
+                        : Except Fault Bool)
+        if isClose then
+          if nested = 0 then pure (some (p + 1 + i + 1)) else commentLoopUnfixed E st fuel (nested - 1) (p + 1 + i + 1)
+        else commentLoopUnfixed E st fuel nested (p + i + 1)
+
+def asciiUnicode : Unicode where
+  isLetter r := (0x41 ≤ r && r ≤ 0x5a) || (0x61 ≤ r && r ≤ 0x7a)
+  isDigit r := 0x30 ≤ r && r ≤ 0x39
+  isGraphic r := 0x20 ≤ r && r ≤ 0x7e
+  isNonchar _ := false
+  isSpace r := r == 0x20 || (0x09 ≤ r && r ≤ 0x0d)
+  toLower r := if 0x41 ≤ r && r ≤ 0x5a then r + 32 else r
+
+/-- the three bytes `{##` -/
+def witness : Bytes := [0x7b, 0x23, 0x23]
+
+/-- projection with decidable equality: `none` for a fault -/
+def faultName : Except Fault (Option Nat) → String
+  | .ok _ => "ok"
+  | .error f => f.name
+
+theorem unfixed_lexComment_faults :
+    faultName (commentLoopUnfixed { text := witness, tmpl := true, noParseShow := false, U := asciiUnicode }
+      (initSt ContextHTML ContextHTML) 5 0 2) = "index" := by decide +kernel
+
+/-- spans (type, start, end) of a scan and its error kind; `none` for a fault -/
+def summary (r : Except Fault (List Tok × Option LexErr)) : Option (List (Nat × Int × Int) × Option (ErrKind × Nat × Nat × Nat)) :=
+  match r with
+  | .ok (toks, e) => some (toks.map (fun t => (t.typ, t.start, t.stop)), e.map (fun e => (e.kind, e.start, e.line, e.col)))
+  | .error _ => none
+
+/-- the repaired model on the same bytes: a syntax error, no fault -/
+example : summary (scanTemplate asciiUnicode FormatHTML false witness) =
+    some ([], some (.commentNotTerminated, 0, 1, 1)) := by decide +kernel
+
+/-- non-vacuity: a template with a tag, a URL attribute, a show and a comment scans to tokens
+with these spans -/
+example : summary (scanTemplate asciiUnicode FormatHTML false (strBytes "<a href=\"{{ u }}\">{# c #}")) =
+    some ([(tokenText, 0, 8), (tokenStartURL, 9, 9), (tokenLeftBraces, 9, 10), (tokenIdentifier, 12, 12),
+           (tokenRightBraces, 14, 15), (tokenEndURL, 16, 16), (tokenText, 16, 17), (tokenComment, 18, 24),
+           (tokenEOF, 25, 25)], none) := by decide +kernel
 
 end ScriggoV.Props.C04
